@@ -1423,12 +1423,24 @@ class CodeGenerator(NodeVisitor):
         self.macro_def(macro_ref, macro_frame)
 
     def visit_CallBlock(self, node: nodes.CallBlock, frame: Frame) -> None:
+        # If an extends is active, a call block outside a block renders
+        # nothing, like any other output of a child template.
+        if frame.require_output_check:
+            if self.has_known_extends:
+                return
+
+            self.writeline("if parent_template is None:")
+            self.indent()
+
         call_frame, macro_ref = self.macro_body(node, frame)
         self.writeline("caller = ")
         self.macro_def(macro_ref, call_frame)
         self.start_write(frame, node)
         self.visit_Call(node.call, frame, forward_caller=True)
         self.end_write(frame)
+
+        if frame.require_output_check:
+            self.outdent()
 
     def visit_FilterBlock(self, node: nodes.FilterBlock, frame: Frame) -> None:
         filter_frame = frame.inner()
